@@ -663,6 +663,7 @@ class URIValue(Value):
 
     def _setUri(self, uri):
         # TODO: check?
+        self._checkReadonly()
         self._value = uri
 
     uri = property(
